@@ -17,7 +17,7 @@
      NewCacheRequestGenerator, its per-request step, and getGatewayMAC.
    Definitions only; proofs are in Proofs/ArpCacheProofs.v. *)
 From Coq Require Import ZArith Bool Ascii String List.
-From SX Require Import Base.Bytes Model.Json.
+From SX Require Import Base.Bytes Model.Json Gen.Schemas.
 Import ListNotations.
 Open Scope Z_scope.
 
@@ -275,10 +275,9 @@ Definition parse_mac_text (s : list Z) : option (list Z) :=
 Definition arp_result (ip mac vendor : list Z) : list fval :=
   [VS (VStr (ip_text ip)); VS (VStr (mac_text mac)); VS (VStr vendor)].
 
-Definition arp_schema_fields : list field :=
-  [{| fkey := str "ip"; fomit := false; ftype := FS SStr |};
-   {| fkey := str "mac"; fomit := false; ftype := FS SStr |};
-   {| fkey := str "vendor"; fomit := false; ftype := FS SStr |}].
+(* the line of output (schema regenerated from pkg/scan/arp on every run), without and with its LF *)
+Definition arp_object (ip mac vendor : list Z) : list Z := enc_record arp_schema (arp_result ip mac vendor).
+Definition arp_line (ip mac vendor : list Z) : list Z := line arp_schema (arp_result ip mac vendor).
 
 (* ------------------------------------------------------------------ loading *)
 
@@ -346,18 +345,24 @@ Fixpoint fill_cache_from (c : cache) (lines : list (list Z)) : cache + load_err 
 Definition fill_cache (lines : list (list Z)) : cache + load_err := fill_cache_from [] lines.
 
 (* bufio.ScanLines: split at LF, drop one trailing CR, no empty last line *)
+Definition drop_cr (cur : list Z) : list Z :=      (* cur is the line reversed *)
+  match cur with c :: cur' => if c =? 13 then cur' else cur | [] => cur end.
 Fixpoint split_lines_aux (s cur : list Z) : list (list Z) :=
   match s with
-  | [] => match cur with [] => [] | _ => [rev cur] end
+  | [] => match cur with [] => [] | _ => [rev (drop_cr cur)] end
   | b :: t =>
-      if b =? 10 then
-        rev (match cur with c :: cur' => if c =? 13 then cur' else cur | [] => cur end) :: split_lines_aux t []
+      if b =? 10 then rev (drop_cr cur) :: split_lines_aux t []
       else split_lines_aux t (b :: cur)
   end.
-Definition split_lines (s : list Z) : list (list Z) :=
-  match split_lines_aux s [] with
-  | l => l
-  end.
+Definition split_lines (s : list Z) : list (list Z) := split_lines_aux s [].
+
+(* FillCache on the bytes of a file.  bufio.Scanner gives up on a line that does not fit its
+   64 KiB buffer (bound measured on the real scanner by the harness) *)
+Definition max_line : Z := 65536.
+Definition fill_cache_text (s : list Z) : cache + load_err :=
+  let lines := split_lines s in
+  if existsb (fun ln => max_line <=? Z.of_nat (length ln)) lines then inr LineTooLong
+  else fill_cache lines.
 
 (* ------------------------------------------------------------------ using the cache *)
 
